@@ -1,0 +1,51 @@
+//go:build verif
+
+package nodis
+
+import (
+	"github.com/diiyw/nodis/ds"
+	"github.com/diiyw/nodis/storage"
+)
+
+// VerifEntry is a read-only view of one index record for the verification harness.
+type VerifEntry struct {
+	Name     string
+	Exp      int64
+	Hot      bool     // value currently held in memory
+	Value    ds.Value // in-memory value, else the value read from storage (nil if unreadable)
+	Count    int64
+	Modified bool
+	VType    ds.ValueType
+}
+
+// VerifGC runs one eviction pass synchronously (what the background goroutine does every GCDuration).
+func (n *Nodis) VerifGC() { n.store.gc() }
+
+// VerifFlush writes modified keys to storage, as Close does.
+func (n *Nodis) VerifFlush() { n.store.flush() }
+
+// VerifIndex returns the index in key order without touching access counters or loading values
+// into the index records.
+func (n *Nodis) VerifIndex() []VerifEntry {
+	n.store.mu.RLock()
+	defer n.store.mu.RUnlock()
+	var out []VerifEntry
+	n.store.metadata.Scan(func(key string, m *metadata) bool {
+		e := VerifEntry{Name: key, Exp: m.key.Expiration, Hot: m.value != nil, Value: m.value,
+			Count: m.count, Modified: m.state&KeyStateModified != 0, VType: m.valueType}
+		if m.value == nil {
+			func() {
+				defer func() { _ = recover() }()
+				if v, err := n.store.ss.Get(m.key); err == nil {
+					e.Value = v
+				}
+			}()
+		}
+		out = append(out, e)
+		return true
+	})
+	return out
+}
+
+// VerifStorage exposes the storage backend (to reopen a new instance on it).
+func (n *Nodis) VerifStorage() storage.Storage { return n.store.ss }
